@@ -4,7 +4,7 @@
 # 43 existing tests, (iii) patched tree + demo fails. On success copies it to /verif/seeded/<id>/.
 WT="$1"; SD="$WT/$2"; ID="$3"
 cd "$WT" || exit 2
-git checkout -q -- src img 2>/dev/null; rm -rf tests
+git checkout -q -- src img 2>/dev/null; git clean -fdq src; rm -rf tests
 [ -z "$(git status --short -- src)" ] || { echo "worktree not clean"; exit 2; }
 mkdir -p tests && cp "$SD/demo.rs" tests/demo.rs
 cargo test --offline --test demo >/tmp/seed_confirm.$ID.log 2>&1; R1=$?
@@ -13,7 +13,7 @@ mv tests/demo.rs /tmp/demo.$ID.rs; rmdir tests
 SUITE=$(cargo test --workspace --no-fail-fast --offline 2>&1 | grep -E '^test result' | head -1)
 mkdir -p tests && mv /tmp/demo.$ID.rs tests/demo.rs
 cargo test --offline --test demo >>/tmp/seed_confirm.$ID.log 2>&1; R3=$?
-git checkout -q -- src img; rm -rf tests
+git checkout -q -- src img; git clean -fdq src; rm -rf tests
 echo "$ID: clean+demo exit=$R1 (want 0); patched suite: $SUITE; patched+demo exit=$R3 (want !=0)"
 if [ $R1 -eq 0 ] && echo "$SUITE" | grep -q '43 passed; 0 failed' && [ $R3 -ne 0 ]; then
   mkdir -p /verif/seeded/$ID && cp "$SD/patch.diff" "$SD/demo.rs" "$SD/meta.json" /verif/seeded/$ID/
